@@ -5,7 +5,7 @@
 //! passes completed is read from the `verif-hooks` event log of chess-engine.
 
 use crate::real::{self, mv_back};
-use crate::report::Collector;
+use refmodel::report::Collector;
 use crate::workload::{self, Theme};
 use chess_engine::verif::{self, Event, Stage};
 use chess_engine::{Engine, Score, ThreeFold, Timeout};
